@@ -1555,8 +1555,9 @@ func (r *raft) removeNode(id uint64) {
 	}
 
 	// The quorum size is now smaller, so see if any pending entries can
-	// be committed.
-	if r.maybeCommit() {
+	// be committed. Only the leader counts matches: a follower that replays an old
+	// RemoveNode from its log must not commit its own unreplicated tail.
+	if r.state == StateLeader && r.maybeCommit() {
 		r.bcastAppend()
 	}
 	// If the removed node is the leadTransferee, then abort the leadership transferring.
